@@ -363,3 +363,100 @@ package router
 //@ func (b *broker) PreInitEventHistoryTopics
 //@   on broker
 //@   nosweep
+
+// ---------------------------------------------------------------------------
+// Dealer
+
+//@ owned dealer dealer
+//@ owned registration dealer
+//@ owned invocation dealer
+//@ slicenorm registration callees
+//@ immutable dealer procRegMap, pfxProcRegMap, wcProcRegMap, registrations, calls, invocations, invocationByCall, calleeRegIDSet, actionChan, stopped, idGen, prng, strictURI, allowDisclose, log, debug
+//@ immutable registration id, procedure, created, match, policy, disclose, forwardTimeout
+
+//@ pred dealerNN(d *dealer) = d != nil && d.procRegMap != nil && d.pfxProcRegMap != nil && d.wcProcRegMap != nil && d.registrations != nil && d.calls != nil && d.invocations != nil && d.invocationByCall != nil && d.calleeRegIDSet != nil && d.idGen != nil && d.prng != nil && !isnil(d.log) && d.procRegMap != d.pfxProcRegMap && d.procRegMap != d.wcProcRegMap && d.pfxProcRegMap != d.wcProcRegMap
+
+//@ pred pfxMatches(d *dealer, p wamp.URI, proc wamp.URI) = p in d.pfxProcRegMap && hasPrefix(string(proc), string(p))
+//@ pred wcMatches(d *dealer, w wamp.URI, proc wamp.URI) = w in d.wcProcRegMap && wildcardSpec(string(proc), string(w))
+
+//@ func (d *dealer) syncMatchProcedure
+//@   on dealer
+//@   props C03 C18
+//@   requires dealerNN(d)
+//@   pure
+//@   ensures [exact-first] procedure in d.procRegMap ==> result1 && result0 == d.procRegMap[procedure]
+//@   ensures [prefix-longest] !(procedure in d.procRegMap) && (exists p wamp.URI :: pfxMatches(d, p, procedure)) ==> result1 && (exists p wamp.URI :: pfxMatches(d, p, procedure) && result0 == d.pfxProcRegMap[p] && (forall q wamp.URI :: pfxMatches(d, q, procedure) ==> len(q) <= len(p)))
+//@   ensures [wildcard-last] !(procedure in d.procRegMap) && !(exists p wamp.URI :: pfxMatches(d, p, procedure)) && (exists w wamp.URI :: wcMatches(d, w, procedure)) ==> result1 && (exists w wamp.URI :: wcMatches(d, w, procedure) && result0 == d.wcProcRegMap[w] && (forall q wamp.URI :: wcMatches(d, q, procedure) ==> len(q) <= len(w)))
+//@   ensures [none] !(procedure in d.procRegMap) && !(exists p wamp.URI :: pfxMatches(d, p, procedure)) && !(exists w wamp.URI :: wcMatches(d, w, procedure)) ==> !result1
+//@   loop range d.pfxProcRegMap
+//@     invariant [pfx-best] ok ==> (exists p wamp.URI :: visited(p) && pfxMatches(d, p, procedure) && reg == d.pfxProcRegMap[p] && matchCount == len(p))
+//@     invariant [pfx-max] forall q wamp.URI :: visited(q) && pfxMatches(d, q, procedure) ==> ok && len(q) <= matchCount
+//@     invariant [pfx-none] !ok ==> matchCount == -1
+//@     invariant [visited-in] forall q wamp.URI :: visited(q) ==> q in d.pfxProcRegMap
+//@   loop range d.wcProcRegMap
+//@     invariant [no-prefix] !(exists p wamp.URI :: pfxMatches(d, p, procedure))
+//@     invariant [wc-best] ok ==> (exists w wamp.URI :: visited(w) && wcMatches(d, w, procedure) && reg == d.wcProcRegMap[w] && matchCount == len(w))
+//@     invariant [wc-max] forall q wamp.URI :: visited(q) && wcMatches(d, q, procedure) ==> ok && len(q) <= matchCount
+//@     invariant [wc-none] !ok ==> matchCount == -1
+//@     invariant [visited-in] forall q wamp.URI :: visited(q) ==> q in d.wcProcRegMap
+
+//@ pred regTable(d *dealer, match string) = match == wamp.MatchPrefix ? d.pfxProcRegMap : (match == wamp.MatchWildcard ? d.wcProcRegMap : d.procRegMap)
+
+//@ pred calleeOf(r *registration, c *wamp.Session) = exists k mathint :: 0 <= k && k < len(r.callees) && r.callees[k] == c
+
+//@ pred dealerRegs(d *dealer) = forall i wamp.ID :: i in d.registrations ==> (allocated(d.registrations[i]) && d.registrations[i].id == i && len(d.registrations[i].callees) >= 1 && d.registrations[i].nextCallee >= 0 && d.registrations[i].procedure in regTable(d, d.registrations[i].match) && regTable(d, d.registrations[i].match)[d.registrations[i].procedure] == d.registrations[i])
+
+//@ pred dealerExact(d *dealer) = forall p wamp.URI :: p in d.procRegMap ==> (d.procRegMap[p] != nil && d.procRegMap[p].procedure == p && d.procRegMap[p].match != wamp.MatchPrefix && d.procRegMap[p].match != wamp.MatchWildcard && d.procRegMap[p].id in d.registrations && d.registrations[d.procRegMap[p].id] == d.procRegMap[p])
+//@ pred dealerPfx(d *dealer) = forall p wamp.URI :: p in d.pfxProcRegMap ==> (d.pfxProcRegMap[p] != nil && d.pfxProcRegMap[p].procedure == p && d.pfxProcRegMap[p].match == wamp.MatchPrefix && d.pfxProcRegMap[p].id in d.registrations && d.registrations[d.pfxProcRegMap[p].id] == d.pfxProcRegMap[p])
+//@ pred dealerWc(d *dealer) = forall p wamp.URI :: p in d.wcProcRegMap ==> (d.wcProcRegMap[p] != nil && d.wcProcRegMap[p].procedure == p && d.wcProcRegMap[p].match == wamp.MatchWildcard && d.wcProcRegMap[p].id in d.registrations && d.registrations[d.wcProcRegMap[p].id] == d.wcProcRegMap[p])
+
+//@ pred dealerCallees(d *dealer) = forall i wamp.ID, k mathint :: i in d.registrations && 0 <= k && k < len(d.registrations[i].callees) ==> allocated(d.registrations[i].callees[k]) && !isnil(d.registrations[i].callees[k].Peer)
+
+//@ pred dealerNoDup(d *dealer) = forall i wamp.ID, k1 mathint, k2 mathint :: i in d.registrations && 0 <= k1 && k1 < k2 && k2 < len(d.registrations[i].callees) ==> d.registrations[i].callees[k1] != d.registrations[i].callees[k2]
+
+//@ pred dealerPolicy(d *dealer) = forall i wamp.ID :: i in d.registrations && len(d.registrations[i].callees) > 1 ==> (d.registrations[i].policy == wamp.InvokeFirst || d.registrations[i].policy == wamp.InvokeLast || d.registrations[i].policy == wamp.InvokeRoundRobin || d.registrations[i].policy == wamp.InvokeRandom)
+
+//@ pred dealerOwn(d *dealer) = (forall i wamp.ID, j wamp.ID :: i in d.registrations && j in d.registrations && i != j ==> backing(d.registrations[i].callees) != backing(d.registrations[j].callees)) && (forall i wamp.ID :: i in d.registrations ==> backing(d.registrations[i].callees) > 0 && backing(d.registrations[i].callees) < allocLimit()) && (forall c1 *wamp.Session, c2 *wamp.Session :: c1 in d.calleeRegIDSet && c2 in d.calleeRegIDSet && c1 != c2 ==> d.calleeRegIDSet[c1] != d.calleeRegIDSet[c2])
+
+//@ pred dealerIndex(d *dealer) = (forall c *wamp.Session, i wamp.ID :: (c in d.calleeRegIDSet && i in d.calleeRegIDSet[c]) <==> (i in d.registrations && calleeOf(d.registrations[i], c))) && (forall c *wamp.Session :: c in d.calleeRegIDSet ==> allocated(d.calleeRegIDSet[c]))
+
+//@ pred dealerInv(d *dealer) = dealerNN(d) && dealerRegs(d) && dealerExact(d) && dealerPfx(d) && dealerWc(d) && dealerCallees(d) && dealerNoDup(d) && dealerPolicy(d) && dealerOwn(d)
+
+//@ pred isCallee(d *dealer, c *wamp.Session, i wamp.ID) = i in d.registrations && calleeOf(d.registrations[i], c)
+
+//@ func (d *dealer) trySend
+//@   props C02 C03 C07
+//@   requires d != nil && !isnil(d.log) && sess != nil && !isnil(sess.Peer) && !isnil(msg)
+//@   modifies ghost sendcount
+//@   ensures [one-attempt] sendcount(sendChan(sess)) == old(sendcount(sendChan(sess))) + 1
+//@   ensures [others] forall c mathint :: c != sendChan(sess) ==> sendcount(c) == old(sendcount(c))
+
+//@ func (d *dealer) syncDelCalleeReg
+//@   on dealer
+//@   props C03 C05
+//@   requires dealerInv(d) && callee != nil
+//@   modifies map(d.registrations), map(d.procRegMap), map(d.pfxProcRegMap), map(d.wcProcRegMap), d.registrations[regID].callees, elems(d.registrations[regID].callees)
+//@   ensures [inv-nn] dealerNN(d)
+//@   ensures [inv-regs] dealerRegs(d)
+//@   ensures [inv-exact] dealerExact(d)
+//@   ensures [inv-pfx] dealerPfx(d)
+//@   ensures [inv-wc] dealerWc(d)
+//@   ensures [inv-callees] dealerCallees(d)
+//@   ensures [inv-nodup] dealerNoDup(d)
+//@   ensures [inv-policy] dealerPolicy(d)
+//@   ensures [inv-own] dealerOwn(d)
+//@   ensures [error-if-not-callee] !old(isCallee(d, callee, regID)) ==> !isnil(result1)
+//@   ensures [ok-if-callee] old(isCallee(d, callee, regID)) ==> isnil(result1)
+//@   ensures [shape] old(isCallee(d, callee, regID)) && !result0 ==> (exists p mathint :: 0 <= p && p < old(len(d.registrations[regID].callees)) && old(d.registrations[regID].callees[p]) == callee && len(old(d.registrations[regID]).callees) == old(len(d.registrations[regID].callees)) - 1 && (forall k mathint :: 0 <= k && k < p ==> old(d.registrations[regID]).callees[k] == old(d.registrations[regID].callees[k])) && (forall k mathint :: p < k && k < old(len(d.registrations[regID].callees)) ==> old(d.registrations[regID]).callees[k - 1] == old(d.registrations[regID].callees[k])))
+//@   ensures [not-callee-no-change] !old(isCallee(d, callee, regID)) ==> !result0 && (forall i wamp.ID, c *wamp.Session :: isCallee(d, c, i) <==> old(isCallee(d, c, i)))
+//@   ensures [removed] !isCallee(d, callee, regID)
+//@   ensures [deleted-iff-last] result0 <==> (old(isCallee(d, callee, regID)) && old(len(d.registrations[regID].callees)) == 1)
+//@   ensures [deleted-gone] result0 ==> !(regID in d.registrations)
+//@   ensures [kept] old(regID in d.registrations) && !result0 ==> regID in d.registrations && d.registrations[regID] == old(d.registrations[regID])
+//@   ensures [other-regs-untouched] forall i wamp.ID, c *wamp.Session :: i != regID ==> (isCallee(d, c, i) <==> old(isCallee(d, c, i)))
+//@   ensures [other-callees-kept] forall c *wamp.Session :: c != callee && old(isCallee(d, c, regID)) ==> isCallee(d, c, regID)
+//@   ensures [no-new-callees] forall c *wamp.Session :: isCallee(d, c, regID) ==> old(isCallee(d, c, regID))
+//@   loop range reg.callees
+//@     invariant [not-yet] forall j mathint :: 0 <= j && j <= rangeindex ==> reg.callees[j] != callee
+//@     invariant [bound] rangeindex < len(reg.callees)
+//@     invariant [not-found] !found
